@@ -222,7 +222,7 @@ def check(case, stats=None):
                     stats.tolerant["int-index-npstructures-TypeError"] += 1
                 continue
             compare("int-index", a, b, out, case, op)
-        elif kind in ("slice", "mask", "ilist"):
+        elif kind in ("slice", "mask", "ilist", "perm"):
             pyidx, npidx = c04._resolve_index(op, n)
             a, b = run_side(lambda: l[npidx]), run_side(lambda: e[npidx])
             if a[0] == "ok" and b[0] == "ok":
@@ -273,7 +273,7 @@ def classify(case):
     prog = case["program"]
     kinds = [op["op"] for op in prog]
     cl = [case["fmt"], "chunked" if case.get("k") else "whole"]
-    idx = ("slice", "mask", "ilist")
+    idx = ("slice", "mask", "ilist", "perm")
     first_access = next((i for i, k in enumerate(kinds) if k in ("field", "rows", "tolist")), None)
     has_index_after_access = first_access is not None and any(k in idx for k in kinds[first_access + 1:])
     has_repl_or_concat = any(k in ("replace", "setattr", "concat") for k in kinds)
@@ -319,6 +319,7 @@ def op_strategy(fmt):
                   st.one_of(st.none(), small), st.one_of(st.none(), small), st.one_of(st.none(), st.sampled_from([1, 2, -1, -2, 3]))),
         st.builds(lambda s, b: {"op": "mask", "src": s, "bits": [int(x) for x in b]}, src, st.lists(st.booleans(), min_size=1, max_size=8)),
         st.builds(lambda s, i: {"op": "ilist", "src": s, "idx": i}, src, st.lists(st.integers(0, 40), max_size=6)),
+        st.builds(lambda s, k: {"op": "perm", "src": s, "seed": k}, src, st.integers(0, 20)),
         st.builds(lambda s, t: {"op": "concat", "src": s, "src2": t}, src, src),
         st.builds(lambda s, t: {"op": "concat", "src": s, "src2": t}, src, src),
         st.builds(lambda s, f, sd: {"op": "replace", "src": s, "field": f, "seed": sd}, src, st.sampled_from(sorted(c04.REPL[fmt])), st.integers(0, 999)),
